@@ -51,14 +51,14 @@ func newWorker(id int, pc *ProgramCtx, cfg *Config) (*Worker, error) {
 	}
 	ex.concrete = false
 	ip.logging = true
-	s, err := NewSolver("z3", cfg.TimeoutMs)
+	s, err := NewSolver("z3-new", cfg.TimeoutMs)
 	if err != nil {
 		return nil, err
 	}
 	w.solver = s
 	if cfg.CrossEvery > 0 {
 		w.crossEvery = cfg.CrossEvery
-		for _, k := range []string{"z3-new", "cvc5"} {
+		for _, k := range []string{"z3", "cvc5"} {
 			cs, err := NewSolver(k, cfg.TimeoutMs)
 			if err == nil {
 				w.cross = append(w.cross, cs)
@@ -176,7 +176,12 @@ func runHarness(pc *ProgramCtx, cfg *Config) (*RunResult, error) {
 		wg.Add(1)
 		go func(w *Worker) {
 			defer wg.Done()
-			defer w.solver.Close()
+			defer func() { w.solver.Close() }()
+			defer func() {
+				if os.Getenv("SYMGO_PROGRESS") != "" {
+					fmt.Fprintf(os.Stderr, "worker %d: send=%.1fs ask=%.1fs check=%.1fs bytes=%d paths=%d\n", w.id, w.solver.SendTime.Seconds(), w.solver.AskTime.Seconds(), w.solver.Time.Seconds(), w.solver.SentBytes, w.stats.paths)
+				}
+			}()
 			defer func() {
 				for _, c := range w.cross {
 					c.Close()
@@ -188,6 +193,16 @@ func runHarness(pc *ProgramCtx, cfg *Config) (*RunResult, error) {
 					return
 				}
 				w.pathLog.Reset()
+				if w.stats.paths > 0 && w.stats.paths%1500 == 0 {
+					// fresh solver process: bounds any state leak across push/pop
+					old := w.solver
+					if ns, err := NewSolver("z3-new", cfg.TimeoutMs); err == nil {
+						ns.Queries, ns.Time = old.Queries, old.Time
+						ns.SendTime, ns.AskTime, ns.SentBytes = old.SendTime, old.AskTime, old.SentBytes
+						w.solver = ns
+						old.Close()
+					}
+				}
 				items, r := w.runPath(d, it)
 				d.finish(items, r)
 			}
